@@ -294,8 +294,12 @@ def _check_eval_fn(ctx, repo):
     blk = st._parent
     lst = next((l for l in (getattr(blk, "body", []), getattr(blk, "orelse", []), getattr(blk, "finalbody", [])) if st in l), None)
     nxt = lst[lst.index(st) + 1] if lst and lst.index(st) + 1 < len(lst) else None
-    ok = isinstance(nxt, ast.Try) and any(_ctx_op(c) == -1 for s in nxt.finalbody for c in calls_in(s))
-    ctx.ob("C03-R3", f.fq, "the push is directly followed by try/finally with the matching pop", ok, node=st, construct="push; try/finally pop")
+    # ... in a `finally`, or in an `except BaseException: pop; raise` handler together with a pop on the normal path (C03-R1 proves that
+    # every exit, exceptional ones included, is balanced; this clause only says that nothing can fail between push and protection)
+    in_finally = isinstance(nxt, ast.Try) and any(_ctx_op(c) == -1 for s in nxt.finalbody for c in calls_in(s))
+    in_handler = isinstance(nxt, ast.Try) and any(h.type is not None and src(h.type) == "BaseException" and any(_ctx_op(c) == -1 for s in h.body for c in calls_in(s)) and
+                                                  isinstance(h.body[-1], ast.Raise) and h.body[-1].exc is None for h in nxt.handlers)
+    ctx.ob("C03-R3", f.fq, "the push is directly followed by the try statement whose finally (or catch-all handler) pops", in_finally or in_handler, node=st, construct="push; try/finally pop")
 
     # ---------------- R5
     passes = [c for c in calls_in(f.node) if isinstance(c.func, ast.Attribute) and c.func.attr == "_resolve_fn"]
@@ -324,10 +328,16 @@ def _check_eval_fn(ctx, repo):
     ctx.ob("C03-R5", f.fq, f"at least {need} projection-flattening passes (found {len(static)} static{' + loop' if looped else ''})", enough, node=f.node,
            construct="projection flattening passes", msg=f"only {len(static)} resolution passes for {need} reserved arguments: projections filled in {need} steps are not flattened")
     # each pass threads all three results back
-    for c in passes:
+    prev_targets = None
+    for c in sorted(passes, key=pos):
         st = c._parent
-        ok = isinstance(st, ast.Assign) and isinstance(st.targets[0], ast.Tuple) and [src(e) for e in st.targets[0].elts] == [src(a) for a in c.args]
+        is_tuple_assign = isinstance(st, ast.Assign) and isinstance(st.targets[0], ast.Tuple) and len(st.targets[0].elts) == len(c.args)
+        targets = [src(e) for e in st.targets[0].elts] if is_tuple_assign else None
+        args = [src(a) for a in c.args]
+        # a pass inside a loop feeds itself; a straight-line pass is fed by the one before it (the first one by the call being evaluated)
+        ok = is_tuple_assign and (targets == args if (in_loop(c, f.node) or prev_targets is None and targets == args) else (prev_targets is None or args == prev_targets))
         ctx.ob("C03-R5", f.fq, "each pass feeds its (f, args, arity) result into the next", ok, node=c, construct="resolution pass threads its results")
+        prev_targets = targets
 
 
 def _check_cond(ctx, repo):
